@@ -100,6 +100,7 @@ def run_history(hist, paths, model_cache, r, workdir):
     m = Model(paths)
     m.cache = model_cache
     setter_since_get, had_get, nontrivial = False, False, False
+    state0 = pipeline.interpreter_state()
     for step, op in enumerate(hist):
         if op[0] == 'path':
             p.set_excel_file_path(paths[op[1]]); m.path = op[1]; setter_since_get = True
@@ -138,6 +139,11 @@ def run_history(hist, paths, model_cache, r, workdir):
                     got = ('exc', o.exc_name)
             r.count('history_gets_checked')
             r.ev()
+            state1 = pipeline.interpreter_state()
+            if state1 != state0:
+                report(r, ID, None, {'history': hist, 'step': step}, {k: (state0[k], state1[k]) for k in state0 if state0[k] != state1[k]},
+                       'process-wide interpreter settings as before the call', monitor='interpreter-state')
+                state0 = state1
             if got != exp:
                 report(r, ID, None, {'history': hist, 'step': step},
                        {'kind': got[0], 'sha_or_exc': hashlib.sha256(got[1].encode()).hexdigest()[:12] if got[0] == 'text' else got[1]},
@@ -219,6 +225,12 @@ def run_threads(shard, ctx):
     specs = corpus(4, random.Random(1))
     os.makedirs(ctx.workdir, exist_ok=True)
     paths = [wbspec.write(sp, os.path.join(ctx.workdir, f't{i}.xlsx')) for i, sp in enumerate(specs)]
+    # a dependency chain of 260 cells (needs more frames than the default recursion limit allows): alone and in company of other
+    # translations the outcome has to be the same (text or the same library exception)
+    chain = {'A1': 1}
+    chain.update({f'A{i}': f'=A{i - 1}+1' for i in range(2, 262)})
+    paths.append(wbspec.write(wbspec.spec(wbspec.sheet('Deep', chain)), os.path.join(ctx.workdir, 't_deep.xlsx')))
+    state0 = pipeline.interpreter_state()
     if 'excel2pycl.src.lexer' in sys.modules:
         r.inconcl('lexer module already imported before the thread trial: token tables not fresh')
         return
@@ -308,7 +320,7 @@ def run_threads(shard, ctx):
     n = 8
     barrier = threading.Barrier(n)
     res = [None] * n
-    which = [0, 0, 0, 0, 1, 2, 3, 1] if shard['trial'] % 2 == 0 else [0] * 8
+    which = [0, 0, 0, 0, 1, 2, 3, 1] if shard['trial'] % 3 == 0 else [0] * 8 if shard['trial'] % 3 == 1 else [0, 4, 1, 4, 2, 4, 0, 4]
 
     def work(i):
         barrier.wait()
@@ -325,18 +337,22 @@ def run_threads(shard, ctx):
     if any(t.is_alive() for t in ths):
         r.inconcl('thread trial did not finish within the watchdog')
         return
+    state1 = pipeline.interpreter_state()
+    if state1 != state0:
+        report(r, ID, None, {'trial': shard['trial'], 'hashseed': os.environ.get('PYTHONHASHSEED')}, {k: (state0[k], state1[k]) for k in state0 if state0[k] != state1[k]},
+               'process-wide interpreter settings as before the translations', monitor='interpreter-state')
     # sequential reference in the same process (tables initialised now) - and cross-checked with the sha shards in finish()
     for i in range(n):
         ref = pipeline.translate(paths[which[i]])
         r.ev()
         r.count('thread_texts_checked')
         o = res[i]
-        if o is None or o.ok != ref.ok or (o.ok and o.value != ref.value):
+        if o is None or o.ok != ref.ok or (o.ok and o.value != ref.value) or (not o.ok and o.exc_name != ref.exc_name):
             report(r, ID, None, {'trial': shard['trial'], 'thread': i, 'workbook': which[i], 'hashseed': os.environ.get('PYTHONHASHSEED')},
                    o.brief() if o is not None and not o.ok else 'text differs from the sequential translation', 'sequential reference text',
                    monitor='threads-vs-sequential')
         if o is not None and o.ok:
-            r.seen(f'sha:c{which[i]}:whole', hashlib.sha256(o.value.encode()).hexdigest()[:16])
+            r.seen(f'sha:c{which[i]}:whole' if which[i] < 4 else 'sha:deep-chain:whole', hashlib.sha256(o.value.encode()).hexdigest()[:16])
     r.count('thread_trials')
     r.count('thread_init_overlaps', overlaps[0])
     r.count('thread_yields_injected', yields[0])
